@@ -13,6 +13,8 @@ import (
 	"time"
 
 	flyt "github.com/mark3labs/flyt"
+
+	"verif/harness/internal/scen"
 )
 
 func init() {
@@ -297,6 +299,25 @@ func runC06(c *Cfg) {
 		r.Count("retry_wait_settlement.runs", 1)
 		r.Nontrivial(fmt.Sprintf("rw %d %d %d %v %s", cs.N, cs.C, cs.Budget, cs.Gated, completionOrder(o)))
 	}, "C06")
+	// items whose exec returns a typed-nil error (a non-nil error interface): the item failed, its slot is an error
+	for _, cc := range []int{0, 1, 3} {
+		if !c.Mine(cc) {
+			continue
+		}
+		n, bad := 12, map[int]bool{5: true, 8: true, 11: true}
+		es, _, err := typedNilItemRun(cc, false, n, bad)
+		r.Eval()
+		r.Count("typed_nil_items.runs", 1)
+		if err == nil {
+			for i := 0; i < n && i < len(es); i++ {
+				if es[i] != bad[i] {
+					r.Violate("C06", "C06:slot-success-for-typed-nil-error", fmt.Sprintf("continue mode, concurrency %d: exec of item %d returned (value, error) with error != nil: %v (a typed nil pointer inside the error interface counts as an error, as everywhere in Go); result %d IsError() = %v — the slot is not the outcome of processing that item", cc, i, bad[i], i, es[i]), map[string]any{"family": "typed-nil-item-errors", "c": cc, "stop": false})
+					break
+				}
+			}
+		}
+		r.Nontrivial(fmt.Sprintf("tn %d", cc))
+	}
 	// 3. prep shapes, sequential and concurrent, free-running
 	shapes := []string{"results", "any", "strings", "ints", "floats", "maps", "named", "ptrs"}
 	var sc []*BatchCase
@@ -1076,11 +1097,69 @@ func chainedBatchRun(cc, budget, n, bad int) (attempts []int32, slotsOK int, err
 	return
 }
 
+// typedNilItemRun: some items' exec returns a NON-NIL error interface holding a nil pointer (the typed-nil gotcha): in
+// Go that is an error, so the item failed. Returns which slots are errors and which items were executed.
+func typedNilItemRun(cc int, stop bool, n int, bad map[int]bool) (errSlots []bool, executed []bool, err error) {
+	executed = make([]bool, n)
+	var mu sync.Mutex
+	bn := flyt.NewBatchNode().WithBatchConcurrency(cc).WithBatchErrorHandling(!stop).
+		WithPrepFunc(func(ctx context.Context, s *flyt.SharedStore) ([]flyt.Result, error) {
+			r := make([]flyt.Result, n)
+			for i := range r {
+				r[i] = flyt.NewResult(i)
+			}
+			return r, nil
+		}).
+		WithExecFuncAny(func(ctx context.Context, v any) (any, error) {
+			i := v.(int)
+			mu.Lock()
+			executed[i] = true
+			mu.Unlock()
+			if bad[i] {
+				var e *scen.NilableErr
+				return "leftover", e
+			}
+			return i, nil
+		}).
+		WithPostFunc(func(ctx context.Context, s *flyt.SharedStore, items, results []flyt.Result) (flyt.Action, error) {
+			errSlots = make([]bool, len(results))
+			for i, r := range results {
+				errSlots[i] = r.IsError()
+			}
+			return "done", nil
+		})
+	_, err = flyt.Run(context.Background(), bn, flyt.NewSharedStore())
+	return
+}
+
 func runC09(c *Cfg) {
 	r := c.Rep
 	if RaceEnabled {
 		runBatchRace(c, "C09")
 		return
+	}
+	// the first failing item fails with a typed-nil error: it still stops the batch and its slot is an error
+	for _, cc := range []int{0, 1} {
+		if !c.Mine(cc + 1) {
+			continue
+		}
+		n, bad := 9, map[int]bool{3: true}
+		es, ex, err := typedNilItemRun(cc, true, n, bad)
+		r.Eval()
+		r.Count("typed_nil_stop.runs", 1)
+		if err == nil && len(es) == n {
+			tc := map[string]any{"family": "typed-nil-item-errors", "c": cc, "stop": true}
+			if !es[3] {
+				r.Violate("C09", "C09:failed-item-as-success:typed-nil", fmt.Sprintf("stop mode, concurrency %d: item 3 failed with a typed-nil error (err != nil); its slot is presented as a success", cc), tc)
+			}
+			for i := 4; i < n; i++ {
+				if ex[i] {
+					r.Violate("C09", "C09:executed-behind-failing-item:typed-nil", fmt.Sprintf("stop mode, concurrency %d: item 3 failed (typed-nil error), yet item %d behind it was executed", cc, i), tc)
+					break
+				}
+			}
+		}
+		r.Nontrivial(fmt.Sprintf("tns %d", cc))
 	}
 	// equal items are separate items also in stop mode: the ones behind the failing item are not executed and are not
 	// presented as successes (because an equal item in front of it succeeded, say)
